@@ -32,14 +32,16 @@ class ClientAsyncioProxy:
 class ServerAsyncioProxy:
     """sleep() yields once instead of waiting; tasks created by the services manager are tracked."""
 
-    def __init__(self):
+    def __init__(self, delay=0.0):
         self.tasks = []
+        self.delay = delay        # 0: one loop iteration; > 0: a (short) real delay, so that a client that reconnects at once
+                                  # arrives while the previous connection is still being cleaned up and has to wait for its turn
 
     def __getattr__(self, name):
         return getattr(asyncio, name)
 
     async def sleep(self, delay, result=None):
-        await asyncio.sleep(0)
+        await asyncio.sleep(self.delay)
         return result
 
     def create_task(self, coro, **kw):
@@ -49,7 +51,7 @@ class ServerAsyncioProxy:
 
 
 class World:
-    def __init__(self, repo, base, echo_cap=1.5):
+    def __init__(self, repo, base, echo_cap=1.5, cleanup_delay=0.0):
         fs.setup_env(repo)
         import websockets
         import frontend.server.services.file_manager as sfm
@@ -68,7 +70,7 @@ class World:
         self.cdir.mkdir(parents=True, exist_ok=True)
         sfm._PROGRAM_PATH = self.sdir
         cfm._PROGRAM_PATH = self.cdir
-        self.sproxy = ServerAsyncioProxy()
+        self.sproxy = ServerAsyncioProxy(cleanup_delay)
         sm.asyncio = self.sproxy
         self.cproxy = ClientAsyncioProxy(echo_cap)
         cservice.asyncio = self.cproxy
